@@ -29,7 +29,7 @@ contract(GAP,
 
 contract("hdc/algo/ops/lroo.py::lroo",
     params={"data": "u1[N]", "out": "i4[1]"},
-    modifies=["out"],
+    modifies=["out"], track_written=["out"],
     requires={"axis_fits_int32": "N <= 2147483647"},
     ensures={
         # the property, as an integer: longest run if it has >= 2 members, else 0 -- *without wrapping*
